@@ -98,7 +98,7 @@ def rule_descend_paths(ctx, rid_i="R6.1", rid_s="R6.2"):
                 rs.ok(where, "subschema %s, schema_path=%s" % (show(S), show(st)))
             else:
                 rs.fail(key + "|schema_path-mismatch", where, "descends into subschema %s but records schema_path=%s" % (show(S), show(st)))
-        elif S[0] == "elem" and S[1] == ("param", sp) and S[2][0] == "const":
+        elif S[0] == "elem" and S[1] == ("param", sp) and S[2][0] in ("const", "constlocal"):
             if st == S[2]:
                 rs.ok(where, "sibling %s, schema_path=%s" % (show(S), show(st)))
             else:
@@ -168,11 +168,22 @@ def rule_dispatcher_stamp(ctx, rid="R6.3"):
         r.fail("%s|schema_path-writes:%d" % (disp.qual, len(apps)), site(disp), "expected one schema_path update in the dispatcher, found %d" % len(apps))
     # _Error._set only fills unset fields
     st = find_method(prog, "exceptions._Error", "_set")
-    body = norm(st.node)
-    if "is _unset" in body and "setattr(" in body and "getattr(" in body:
+    scfg = cfg_of(st)
+    sets = [(n, c) for n in scfg.live for (c, _tg) in calls_at(calls, st, n) if norm(c.func) == "setattr" and len(c.args) == 3 and norm(c.args[0]) == st.params[0]]
+    ok_set = bool(sets)
+    for (n, c) in sets:
+        key = norm(c.args[1])
+        tests = []
+        for t in scfg.live:
+            if t.kind == "test" and isinstance(t.ast, ast.Compare) and len(t.ast.ops) == 1 and isinstance(t.ast.ops[0], (ast.Is, ast.IsNot)) \
+                    and norm(t.ast.left) == "getattr(%s, %s)" % (st.params[0], key) and norm(t.ast.comparators[0]).endswith("_unset"):
+                tests.append((t, "true" if isinstance(t.ast.ops[0], ast.Is) else "false"))
+        if not tests or not c02.only_via_edge(scfg, n, tests, True):
+            ok_set = False
+    if ok_set:
         r.ok(site(st), "_set only fills fields that are still unset (innermost wins)")
     else:
-        r.fail("%s|shape" % st.qual, site(st), "_set overwrites fields that were already set")
+        r.fail("%s|shape" % st.qual, site(st), "_set can overwrite a field that was already set (no `getattr(self, name) is _unset` guard on every path to setattr)")
     return r
 
 
@@ -225,22 +236,42 @@ def rule_absolute_paths(ctx, rid="R6.5"):
             continue
         s = m.params[0]
         ok = False
-        # names are free: find <p> = self.parent; if <p> is None: return self.<rel>; <q> = deque(self.<rel>);
-        # <q>.extendleft(reversed(<p>.<name>)); return <q>
-        pv = qv = None
-        for n in m.body:
-            if isinstance(n, ast.Assign) and isinstance(n.targets[0], ast.Name):
-                if norm(n.value) == "%s.parent" % s:
-                    pv = n.targets[0].id
-                elif norm(n.value) == "deque(%s.%s)" % (s, rel):
-                    qv = n.targets[0].id
-        if pv and qv:
-            src = [norm(n) for n in m.body]
-            ok = (
-                any(x.startswith("if %s is None:" % pv) and "return %s.%s" % (s, rel) in x for x in src) and
-                any(x == "%s.extendleft(reversed(%s.%s))" % (qv, pv, name) for x in src) and
-                src[-1] == "return %s" % qv
-            )
+        mcfg = cfg_of(m)
+        # locals holding self.parent / deque(self.<rel>) / <parent>.<name>
+        assigns = {}
+        for n in walk_body(m):
+            if isinstance(n, ast.Assign) and len(n.targets) == 1 and isinstance(n.targets[0], ast.Name):
+                assigns.setdefault(n.targets[0].id, []).append(n.value)
+
+        def resolve(e, depth=0):
+            if isinstance(e, ast.Name) and len(assigns.get(e.id, [])) == 1 and depth < 3:
+                return resolve(assigns[e.id][0], depth + 1)
+            return e
+        pvs = {k for k, v in assigns.items() if len(v) == 1 and norm(v[0]) == "%s.parent" % s} | set()
+        qvs = {k for k, v in assigns.items() if len(v) == 1 and norm(v[0]) == "deque(%s.%s)" % (s, rel)}
+        rets = [n for n in mcfg.live if n.kind == "return"]
+        tests = [(t, "true" if isinstance(t.ast.ops[0], ast.Is) else "false") for t in mcfg.live
+                 if t.kind == "test" and isinstance(t.ast, ast.Compare) and len(t.ast.ops) == 1 and isinstance(t.ast.ops[0], (ast.Is, ast.IsNot))
+                 and (norm(t.ast.left) in pvs or norm(t.ast.left) == "%s.parent" % s) and isinstance(t.ast.comparators[0], ast.Constant)
+                 and t.ast.comparators[0].value is None]
+        ext = []
+        for n in walk_body(m):
+            if isinstance(n, ast.Call) and isinstance(n.func, ast.Attribute) and n.func.attr == "extendleft" and isinstance(n.func.value, ast.Name) \
+                    and n.func.value.id in qvs and len(n.args) == 1 and isinstance(n.args[0], ast.Call) and norm(n.args[0].func) == "reversed":
+                inner = resolve(n.args[0].args[0])
+                if isinstance(inner, ast.Attribute) and inner.attr == name and (norm(inner.value) in pvs or norm(inner.value) == "%s.parent" % s):
+                    ext.append(n.func.value.id)
+        other_mut = [n for n in walk_body(m) if isinstance(n, ast.Call) and isinstance(n.func, ast.Attribute) and isinstance(n.func.value, ast.Name)
+                     and n.func.value.id in qvs and n.func.attr in ("append", "extend", "appendleft", "pop", "popleft", "reverse", "rotate", "clear")]
+        if tests and len(ext) == 1 and not other_mut and len(rets) == 2:
+            good = 0
+            for rn in rets:
+                v = norm(rn.ast.value)
+                if v == "%s.%s" % (s, rel) and c02.only_via_edge(mcfg, rn, tests, True):
+                    good += 1
+                elif v == ext[0] and c02.only_via_edge(mcfg, rn, tests, False):
+                    good += 1
+            ok = good == 2
         if ok:
             r.ok(site(m), "copy of %s extended on the left by the reversed parent %s" % (rel, name))
         else:
